@@ -1,6 +1,7 @@
 """Sidecar contracts.  PROPS maps a property id to the contract modules that carry it."""
 PROPS = {
     "C21": ["c21_needs"],
+    "C38": ["c38_exchange"],
     "C41": ["c41_crc"],
     "C42": ["c42_timers"],
     "C43": ["c43_wrap"],
